@@ -2,6 +2,7 @@ import PvModel.Props.C02
 import PvModel.Props.C02Program
 import PvModel.Props.C02Decide
 import PvModel.Props.C02Rel
+import PvModel.Props.C02Answer
 #print axioms Pv.C02_invariant_ok
 #print axioms Pv.C02_invariant_fail
 #print axioms Pv.C02_step_ok
@@ -17,3 +18,5 @@ import PvModel.Props.C02Rel
 #print axioms Pv.C02_answer_instances
 #print axioms Pv.C02_rel_state_normal
 #print axioms Pv.C02_rel_answer_instances
+#print axioms Pv.C02_reported_answer
+#print axioms Pv.C02_reify_is_reifyState
